@@ -160,6 +160,13 @@ class DeferDriver:
                     for kinds in itertools.product(
                             ('raise', 'disable', 'disable_dispatch'),
                             repeat=nf):
+                        # an injected event lengthens the backlog: at most
+                        # one per release, and only while the queue is short
+                        # (otherwise the space is unbounded)
+                        inject = kinds.count('disable_dispatch')
+                        if inject > 1 or (inject and len(ctx.pending)
+                                          > self.max_queue):
+                            continue
                         plans.append(tuple(zip(pos, kinds)))
             # a nested release (disable, then enable again inside the
             # callback) is explored as a single deviation
@@ -482,9 +489,9 @@ def drivers(tier):
     if tier == 'quick':
         return {'defer': (DeferDriver(max_queue=4, max_faults=1),
                           dict(max_states=200000, time_budget=300))}
-    d1 = DeferDriver(max_queue=4, max_faults=1)
+    d1 = DeferDriver(max_queue=5, max_faults=1)
     d1.name = 'defer-queue4'
-    d2 = DeferDriver(max_queue=2, max_faults=2)
+    d2 = DeferDriver(max_queue=4, max_faults=2)
     d2.name = 'defer-two-faults'
     return {'defer-queue4': (d1, dict(max_states=2000000, time_budget=1500)),
             'defer-two-faults': (d2, dict(max_states=2000000,
